@@ -1,3 +1,4 @@
+@classmethod
 def spec(cls, scale):
     scale = _astensorsfloat(scale)
     return scale ** 2
